@@ -14,8 +14,20 @@ let show_split (r : split_result) : string =
 let show_parts (p : varalign_parts) : string =
   String.concat ";" [hx p.vp_leading_comment; hx p.vp_varname_op; hx p.vp_space_before_value;
                      hx p.vp_value; hx p.vp_space_after_value; hx p.vp_continuation]
+let show_va (o : varassign option) : string =
+  match o with
+  | None -> "N"
+  | Some a -> String.concat ";" ["M"; b01 a.va_commented; hx a.va_varname; hx a.va_space_after_varname;
+                                 hx a.va_op; hx a.va_value; show_split a.va_split; hx a.va_value_align]
 let handle (args : string list) : string =
   match args with
+  | ["ml"; h] ->
+    (* every logical line: <text>:<number of raw lines>:<va section>, joined by "|"; "E" = no line *)
+    show_res (fun ls ->
+        if ls = [] then "E" else
+        String.concat "|" (List.map (fun ((t, n), r) ->
+          hx t ^ ":" ^ string_of_int (int_of_nat n) ^ ":" ^ show_res show_va r) ls))
+      (c10_varassign_file (bytes_of_hex h))
   | ["all"; h] ->
     let s = bytes_of_hex h in
     String.concat " " [
